@@ -29,7 +29,7 @@ def _collect_messages():
     return msgs, logger
 
 
-def solve(program, facts, via="text", max_models=MAX_MODELS, timeout=SOLVE_TIMEOUT):
+def solve(program, facts, via="text", max_models=MAX_MODELS, timeout=SOLVE_TIMEOUT, strict=True):
     """all answer sets of program+facts: list of (frozenset(str(atom)), {priority: cost}).
     program: text, or list of AST when via == 'ast'. Raises Skip."""
     msgs, logger = _collect_messages()
@@ -47,8 +47,10 @@ def solve(program, facts, via="text", max_models=MAX_MODELS, timeout=SOLVE_TIMEO
         ctl.ground([("base", [])])
     except RuntimeError as e:
         raise GroundError(str(e), msgs) from e
+    # strict: the SOURCE program with the instance must ground without such messages (the properties' quantifier);
+    # the optimized program is compared as clingo evaluates it, messages or not
     for code, m in msgs:
-        if "operation undefined" in m or "tuple ignored" in m or "undefined" in m and "info" in m:
+        if strict and ("operation undefined" in m or "tuple ignored" in m or "undefined" in m and "info" in m):
             raise Skip("undefined operation / ignored tuple")
     res = []
 
@@ -75,7 +77,7 @@ def solve(program, facts, via="text", max_models=MAX_MODELS, timeout=SOLVE_TIMEO
     if len(res) > max_models:
         raise Skip("too many models")
     for code, m in msgs:
-        if "operation undefined" in m or "tuple ignored" in m:
+        if strict and ("operation undefined" in m or "tuple ignored" in m):
             raise Skip("undefined operation / ignored tuple")
     return res
 
@@ -198,7 +200,7 @@ def compare(src_text, res_text, facts, mode, inp_preds, out_preds, src_preds, re
     """returns None if equal under mode, else a failure dict. Raises Skip."""
     m1 = solve(src_text, facts)
     try:
-        m2 = solve(res_ast if res_via == "ast" else res_text, facts, via=res_via)
+        m2 = solve(res_ast if res_via == "ast" else res_text, facts, via=res_via, strict=False)
     except GroundError as e:
         return {"kind": "result-does-not-ground", "error": str(e)[:300], "messages": [m for _, m in e.msgs][:3]}
     if mode == "out":
